@@ -6,8 +6,9 @@ from autobean_refactor.models.internal.repeated import Repeated
 
 CASES = {'quick': 2400, 'thorough': 60000}
 TARGETS = sorted(c.__name__ for c in models.TREE_MODELS.values())
+SMALL_BLOCKS = 4      # runner: every 4th case keeps its stores in 2..10-token blocks
 GATES = {
-    'quick': {'evaluations': 6000, 'accepted_File': 1200, 'targets_accepted_ge5': 33, 'layout_comment_before_dedent': 30,
+    'quick': {'cases_in_small_blocks': 50, 'evaluations': 6000, 'accepted_File': 1200, 'targets_accepted_ge5': 33, 'layout_comment_before_dedent': 30,
               'layout_ws_only_line': 100, 'layout_no_final_newline': 200, 'layout_crlf': 300,
               'inline_targets_respaced_multiline': 800},
     'thorough': {'evaluations': 150000, 'accepted_File': 30000, 'targets_accepted_ge5': 33},
